@@ -30,11 +30,20 @@ Proof. exists x. reflexivity. Qed.
 Section Total.
 Context {am : Amount} (AT : AmountTotal am).
 
-Ltac tot :=
+(** structure-agnostic: follows whatever nesting of bind / let / if / match the
+    translated function has, so that a behaviour-preserving rewrite of the source
+    (an extra let, swapped branches, ...) does not break these proofs *)
+Ltac tot_with extra :=
   repeat first
     [ apply total_ok
+    | apply (at_add am AT) | apply (at_sub am AT) | apply (at_mul am AT) | apply (at_div am AT)
+    | extra
     | apply total_bind; [|intros ?]
-    | apply (at_add am AT) | apply (at_sub am AT) | apply (at_mul am AT) | apply (at_div am AT) ].
+    | progress cbv zeta
+    | match goal with |- total (if ?b then _ else _) => destruct b end
+    | match goal with |- total (match ?o with Some _ => _ | None => _ end) => destruct o end
+    | match goal with |- total (let '(_, _) := ?p in _) => destruct p end ].
+Ltac tot := tot_with fail.
 
 Lemma tot_add x y : total (a_add am x y). Proof. apply (at_add am AT). Qed.
 Lemma tot_sub x y : total (a_sub am x y). Proof. apply (at_sub am AT). Qed.
@@ -46,39 +55,34 @@ Context (S : QBase am).
 
 Lemma total_equiv_amount q v : total (HasRefUnit_equiv_amount S q v).
 Proof.
-  unfold HasRefUnit_equiv_amount, LinearScaledUnit_ratio. destruct (Nat.eqb _ _); [apply total_ok|].
-  apply total_bind; [apply tot_div|intros r; apply tot_mul].
+  unfold HasRefUnit_equiv_amount, LinearScaledUnit_ratio. tot.
 Qed.
 
 Lemma total_convert q v : total (HasRefUnit_convert S q v).
-Proof. unfold HasRefUnit_convert. apply total_bind; [apply total_equiv_amount|intros; apply total_ok]. Qed.
+Proof. unfold HasRefUnit_convert. tot_with ltac:(apply total_equiv_amount). Qed.
 
 Lemma total_eq x y : total (HasRefUnit_eq S x y).
 Proof.
-  unfold HasRefUnit_eq. destruct (Nat.eqb _ _); [apply total_ok|].
-  apply total_bind; [apply tot_mul|intros]. apply total_bind; [apply tot_mul|intros; apply total_ok].
+  unfold HasRefUnit_eq. tot.
 Qed.
 
 Lemma total_partial_cmp x y : total (HasRefUnit_partial_cmp S x y).
 Proof.
-  unfold HasRefUnit_partial_cmp. destruct (Nat.eqb _ _); [apply total_ok|].
-  apply total_bind; [apply tot_mul|intros]. apply total_bind; [apply tot_mul|intros; apply total_ok].
+  unfold HasRefUnit_partial_cmp. tot.
 Qed.
 
 Lemma total_add x y : total (HasRefUnit_add S x y).
 Proof.
-  unfold HasRefUnit_add. apply total_bind; [|intros; apply total_ok].
-  apply total_bind; [apply total_equiv_amount|intros; apply tot_add].
+  unfold HasRefUnit_add. tot_with ltac:(apply total_equiv_amount).
 Qed.
 
 Lemma total_sub x y : total (HasRefUnit_sub S x y).
 Proof.
-  unfold HasRefUnit_sub. apply total_bind; [|intros; apply total_ok].
-  apply total_bind; [apply total_equiv_amount|intros; apply tot_sub].
+  unfold HasRefUnit_sub. tot_with ltac:(apply total_equiv_amount).
 Qed.
 
 Lemma total_div x y : total (HasRefUnit_div S x y).
-Proof. unfold HasRefUnit_div. apply total_bind; [apply total_equiv_amount|intros; apply tot_div]. Qed.
+Proof. unfold HasRefUnit_div. tot_with ltac:(apply total_equiv_amount). Qed.
 
 (** _fit: the unwrap cannot fail because the reference unit is eligible *)
 Lemma total_fit : In (u_ref_unit S) (u_iter S) -> forall m, total (HasRefUnit__fit S m).
@@ -91,7 +95,7 @@ Lemma total_table rows q to : total (ConversionTable_convert S rows q to).
 Proof.
   rewrite convert_table_spec. destruct (Nat.eqb _ _); [apply total_ok|].
   destruct (first_row rows (q_unit S q) to) as [[k c]|]; [|apply total_ok].
-  unfold affine. apply total_bind; [apply tot_mul|intros]. apply total_bind; [apply tot_add|intros; apply total_ok].
+  unfold affine. tot.
 Qed.
 End Ref.
 
@@ -128,7 +132,7 @@ Lemma total_scalar (S : QBase am) k q :
   total (tmpl_Mul_Amnt_Qty S k q) /\ total (tmpl_Mul_Qty_Amnt S q k) /\ total (tmpl_Div_Qty_Amnt S q k).
 Proof.
   unfold tmpl_Mul_Amnt_Qty, tmpl_Mul_Qty_Amnt, tmpl_Div_Qty_Amnt.
-  repeat split; (apply total_bind; [first [apply tot_mul|apply tot_div]|intros; apply total_ok]).
+  repeat split; tot.
 Qed.
 
 Lemma total_operators (g : gen_def SIPrefix) : gd_path g = PRef ->
